@@ -259,8 +259,9 @@ func (F *Flow) backCell(a *ssa.Alloc, path []int, fn *ssa.Function) {
 				// calls that fill a buffer / struct through a pointer to the cell are reported to the visitor via Call
 				if c, ok := ins.(*ssa.Call); ok && F.Call != nil {
 					for _, arg := range c.Call.Args {
-						root, _ := addrPath(stripSlice(arg))
-						if F.sameCell(root, a) {
+						root, ap := addrPath(stripSlice(arg))
+						// (a pointer to another field of the struct cannot write the part asked for)
+						if F.sameCell(root, a) && pathPrefixCompatible(ap, path) {
 							if follow, handled := F.Call(c, -2); handled {
 								for _, x := range follow {
 									F.back(x, -1)
@@ -607,6 +608,18 @@ func (P *Prog) allocBytes(a *ssa.Alloc) ([]byte, bool) {
 // to anything. The result is the value that was stored (resolved in turn); v itself when it is not of that form.
 func resolveLocal(v ssa.Value) ssa.Value {
 	for depth := 0; depth < 8; depth++ {
+		// a field taken out of a struct value that was read whole from such a local
+		if fx, isF := v.(*ssa.Field); isF {
+			if whole, isLd := fx.X.(*ssa.UnOp); isLd && whole.Op == token.MUL {
+				if cell, isA := whole.X.(*ssa.Alloc); isA {
+					if next := localFieldSource(cell, fx.Field, 0); next != nil {
+						v = next
+						continue
+					}
+				}
+			}
+			return v
+		}
 		ld, ok := v.(*ssa.UnOp)
 		if !ok || ld.Op != token.MUL {
 			return v
@@ -619,6 +632,15 @@ func resolveLocal(v ssa.Value) ssa.Value {
 		case *ssa.FieldAddr:
 			cell, _ = a.X.(*ssa.Alloc)
 			field = a.Field
+		case *ssa.IndexAddr:
+			// an element of a local array at a constant index: like a field
+			if k, isK := constInt(a.Index); isK && k >= 0 {
+				if al, isA := a.X.(*ssa.Alloc); isA {
+					if _, isArr := al.Type().Underlying().(*types.Pointer).Elem().Underlying().(*types.Array); isArr {
+						cell, field = al, int(k)
+					}
+				}
+			}
 		}
 		if cell == nil {
 			return v
@@ -662,6 +684,26 @@ func localFieldSource(cell *ssa.Alloc, field int, depth int) ssa.Value {
 				_ = y
 			}
 			return nil
+		case *ssa.IndexAddr:
+			// an array cell: elements at constant indices are like fields; a write through a computed index may be any
+			k, isK := constInt(x.Index)
+			for _, rr := range *x.Referrers() {
+				switch z := rr.(type) {
+				case *ssa.Store:
+					if z.Addr != ssa.Value(x) || !isK {
+						return nil
+					}
+					if int(k) == field {
+						n++
+						src = z.Val
+					}
+				case *ssa.UnOp, *ssa.DebugRef:
+				default:
+					if !isK || int(k) == field || field < 0 {
+						return nil
+					}
+				}
+			}
 		case *ssa.FieldAddr:
 			for _, rr := range *x.Referrers() {
 				switch z := rr.(type) {
